@@ -24,12 +24,14 @@ class C09(Prop):
                 "NV.C09.connect_order_as_modelled", "NV.C09.hb_remove_as_modelled", "NV.C09.hb_round_as_modelled",
                 "NV.C09.sweep_tests_as_modelled", "NV.C09.cursor_as_modelled", "NV.C09.backend_loop_as_modelled",
                 "NV.C09.slot_search_as_modelled", "NV.C09.process_io_as_modelled", "NV.C09.remove_tests_as_modelled",
-                "NV.C09.apply_sites_as_modelled", "NV.C09.guards_present", "NV.C09.apply_touch_as_modelled",
+                "NV.C09.apply_sites_as_modelled", "NV.C09.no_new_unprotected_apply_site", "NV.C09.guards_present", "NV.C09.apply_touch_as_modelled",
                 "NV.C09.input_to_call_as_modelled", "NV.C09.set_call_as_modelled", "NV.C09.prompt_as_modelled",
                 "NV.C09.command_branches_as_modelled", "NV.C09.preload_as_modelled", "NV.C09.error_handler_stmts_as_modelled",
                 "NV.C09.batch_any_order_good", "NV.C09.stale_event_skipped", "NV.C09.freed_record_events_are_stale",
                 "NV.C09.accept_serial_fresh", "NV.C09.applyAction_resolved", "NV.C09.pending_entry_older_than_any_accept",
                 "NV.C09.abandoned_suffix", "NV.C09.abandoned_nil_of_ok", "NV.C09.findConn_id",
+                "NV.C09.snoop_input_path_safe", "NV.C09.packet_dropped_when_user_gone", "NV.C09.removed_snooper_leaves_no_link",
+                "NV.C09.snoop_loop_refused", "NV.C09.cursor_moves_past_served_user",
                 "NV.C09.input_to_cleared_before_callback", "NV.C09.input_to_first_wins", "NV.C09.input_to_takes_the_line",
                 "NV.C09.no_prompt_while_input_to_pending", "NV.C09.prompt_revalidates", "NV.C09.sweep_keeps_invariant",
                 "NV.C09.failing_cleanup_loses_reset_state", "NV.C09.cleanup_restores_reset_state",
@@ -61,7 +63,8 @@ class C09(Prop):
     level_text = ("PARTIAL (model level). Lean 4 theorem `backend_total` about the model `Backend` (nullable all_users, "
                   "connection records as serials, recovery points, error_handler flag protocol with the master handler ok / "
                   "raising / catching an inner error and then raising, heart-beat bookkeeping, call_out sweep, reset + clean_up sweep with the "
-                  "walk restarted after an error, preload_objects, remove_interactive, input_to, write_prompt, re-validation after callbacks, batches of "
+                  "walk restarted after an error, preload_objects, remove_interactive, input_to, write_prompt, snoop links and the "
+                  "snooper's receive_snoop() on the input path, re-validation after callbacks, batches of "
                   "I/O events of one poll incl. stale entries and batches abandoned by a longjmp): for EVERY finite history of "
                   "external events (any number of accept / data / end-of-file / hang-up / console / timer events per poll, in "
                   "any order) x EVERY task oracle x both modes the run never reaches a modelled NULL dereference or use of "
@@ -74,28 +77,32 @@ class C09(Prop):
                   "the C source on every run) and by running the real backend() loop (loopback TCP clients, console pipe, "
                   "virtual time, events of one poll delivered in scripted order by the interposed poller, scripted failing "
                   "tasks, master error_handler in three behaviours) on the same histories: traces must be identical; the "
-                  "Lean specification oracle (12 clauses) judges every implementation trace.")
+                  "Lean specification oracle (14 clauses, incl. `isolation`: a line at the head of a user's input is served within "
+                  "users + 2 iterations whatever the other users' commands do) judges every implementation trace.")
     level_note = ("trusted: Lean kernel; extract.py and the regex translator in props/c09.py; the correspondence harness "
                   "(differential; only generated histories); the oracle clauses heartbeats / commands / callouts / leak / "
-                  "refs / unexpected-shutdown / disconnect / hb-schedule / turns are judged on every trace but not proved "
+                  "refs / unexpected-shutdown / disconnect / hb-schedule / turns / isolation are judged on every trace but not proved "
                   "for all histories; memory errors inside arbitrary failing tasks, real signal delivery, the OS, the same "
-                  "descriptor twice in one poll, the address-server pipe, LPC sockets, ed, snoop, exec(), get_char are not "
+                  "descriptor twice in one poll, the address-server pipe, LPC sockets, ed, exec(), get_char, the output side of "
+                  "snoop (the scripted receive_snoop() ignores ordinary output), validity of the snoop_by / snoop_on pointers are not "
                   "modelled (ASan/UBSan observe the real runs; address re-use is observed on a second build without "
                   "sanitizers)")
     rule = ("cases = corpus + known-finding inputs + boundary list + seeded random histories: per backend cycle one I/O "
             "event or a batch of 2-4 events delivered by ONE poll in scripted order (accept / 1-3 complete or partial "
             "lines, some very long / end-of-file / reset (hang-up) / console line, on distinct connections, shuffled; "
-            "directed template: a third party frees a record whose own event is still pending, accept in between) and an "
+            "directed templates: a third party frees a record whose own event is still pending with an accept in between; "
+            "a backlog of 6-12 failing commands on one connection while the others have commands pending; snoop links "
+            "set, replaced and torn down in random order; a heart_beat removing an object still to come in its round) and an "
             "optional timer tick (2 s ... 1000 s, so that reset and clean_up sweeps happen); "
             "scripts inject ok / uncaught error / caught error / destruct (self, other user, other object) / call_out / "
-            "heart-beat switch / master-handler switch / input_to into logon, process_input, command, input_to callback, "
-            "write_prompt, net_dead, heart_beat, call_out, reset, clean_up and connect; both modes; three master error_handler "
+            "heart-beat switch / master-handler switch / input_to / snoop into logon, process_input, command, input_to callback, "
+            "write_prompt, receive_snoop, net_dead, heart_beat, call_out, reset, clean_up and connect; both modes; three master error_handler "
             "behaviours; batch cases run on the sanitizer build AND on a plain build; a case is non-trivial when its "
             "trace has >= 2 task lines; distinct = distinct canonical implementation trace")
     not_covered = ["memory errors inside the failing task itself (C01) - only observed by ASan/UBSan on the generated runs",
                    "real signal delivery, the real 2 s timer thread (ticks are injected exactly as its callback does)",
                    "the same descriptor reported twice in one poll (data and end-of-file together), write-ready events",
-                   "address-server pipe, LPC sockets, ed, snoop, exec(), get_char, the `!` escape, "
+                   "address-server pipe, LPC sockets, ed, exec(), get_char, the `!` escape, snoop forwarding of ordinary output, "
                    "input_to armed from net_dead / call_out / heart_beat (inherited command_giver)",
                    "an object destructed by its own reset() when its clean_up is due (the C code applies clean_up to it)",
                    "console on a real tty (reconnect path); the harness console is a pipe, where removal means shutdown",
@@ -330,7 +337,19 @@ class C09(Prop):
         sites = []
         for fname, src in (("backend.c", back), ("error_context.c", ec), ("comm.c", comm), ("call_out.c", co)):
             sites += apply_sites(fname, src)
-        cmp_sites["applySites"] = sites
+        # exact inventory for the functions the model mirrors; for all other functions only the UNPROTECTED sites matter
+        # (file:function, each once): protecting one of them, or adding a protected site, is harmless and must not
+        # break the tie - a NEW unprotected site does
+        modelled_fns = ("mudlib_connect", "mudlib_logon", "look_for_objects_to_swap", "call_heart_beat", "preload_objects",
+                        "mudlib_error_handler", "process_user_command", "remove_interactive", "call_function_interactive",
+                        "print_prompt", "receive_snoop", "call_out")
+        cmp_sites["applySites"] = [x for x in sites if x.split(":")[1] in modelled_fns]
+        elsewhere = []
+        for x in sites:
+            f, fn, call, _ = x.split(":", 3)
+            if fn not in modelled_fns and not call.startswith("safe_") and (f + ":" + fn) not in elsewhere:
+                elsewhere.append(f + ":" + fn)
+        cmp_sites["unprotectedElsewhere"] = elsewhere
         # shape guards of the repaired code: the model mirrors these forms
         guards = [
             (r"if\s*\(\s*all_users\s*&&\s*all_users\s*\[\s*0\s*\]\s*\)\s*\n\s*flush_message", comm, "process_io:all_users guard"),
@@ -340,6 +359,10 @@ class C09(Prop):
             (r"if\s*\(\s*duration\s*<\s*0\s*\)", back, "update_load_av:clamp"),
             (r"ret\s*=\s*safe_apply_master_ob\s*\(\s*APPLY_CONNECT", back, "mudlib_connect:connect under its own recovery point"),
             (r"safe_apply\s*\(\s*APPLY_LOGON,\s*ob", back, "mudlib_logon:logon under its own recovery point"),
+            (r'add_message \(ip->ob, "[^"]*"\);\s*\n\s*if \(user_ob->interactive != ip\)\s*\n\s*return \(size_t\) -1;', comm,
+             "copy_chars:record re-validated after the echo"),
+            (r"ip->iflags \|= CMD_IN_BUF;\s*\}\s*(?:/\*[\s\S]*?\*/\s*)?if \(ip->snoop_by && !\(ip->iflags & NOECHO\)\)\s*\n\s*receive_snoop \(buf, ip->snoop_by->ob\);\s*\n\s*break;",
+             comm, "get_user_data:snoop forwarding last"),
             (r"for\s*\(idx = 0; idx < g_num_io_events; idx\+\+\)\s*\n\s*if\s*\(g_io_events\[idx\]\.context == ip\)\s*\n\s*g_io_events\[idx\]\.context = 0;[^}]*?FREE \(ip\);",
              comm, "remove_interactive:pending events of the freed record cleared"),
         ]
@@ -494,11 +517,109 @@ class C09(Prop):
         for meh in ("ok", "raise", "recurse"):
             mk("preload-" + meh, ["mode net", "meh " + meh, "preload err,ok,err,err,ok", "step conn:c1", "step send:c1:a/"])
         mk("preload-epilog-fails", ["mode console", "meh recurse", "preload epilog-err", "step cin:a/"])
+        # failure isolation: one connection sends a BACKLOG of commands that each raise an uncaught error (in the command,
+        # in process_input, in an input_to callback) while the others have commands pending: the longjmp to backend()
+        # restarts the cycle behind the failing user, the others are served in the next iteration
+        for i, (kind, line) in enumerate([("cmd:boom", "boom"), ("input", "a"), ("prompt", "a")]):
+            mk("backlog-of-failing-commands-%d" % i, [
+                "mode net", "script u1 %s err" % kind, "step conn:c1", "step conn:c2", "step conn:c3",
+                "step send:c1:%s send:c2:x1/ send:c3:a/b/" % ((line + "/") * 9), "step send:c2:b/", "step idle", "step idle",
+                "step send:c3:c/", "step idle", "step idle", "step idle"])
+        mk("backlog-of-failing-commands-console", [
+            "mode console", "script u1 cmd:boom err", "script u3 cmd:boom err", "step conn:c1", "step conn:c2",
+            "step cin:%s send:c1:a/b/ send:c2:%s" % ("boom/" * 8, "boom/" * 8), "step send:c1:c/", "step idle", "step idle",
+            "step idle", "step idle", "step idle", "step idle"])
+        # snoop: what the snooped user types is shown to the snooper (receive_snoop(), unprotected apply inside
+        # get_user_data); the snooper destructs / disconnects the snooped user or itself, raises, re-targets; loops refused
+        mk("snoop-input-destructs-snoopee", ["mode net", "script u1 cmd:spy snoop:u2", "script u1 snoop dest:u2",
+                                             "step conn:c1", "step conn:c2", "step send:c1:spy/", "step send:c2:a/b/",
+                                             "step send:c1:x1/"])
+        mk("snoop-input-raises", ["mode net", "script u1 cmd:spy snoop:u2", "script u1 snoop err", "step conn:c1",
+                                  "step conn:c2", "step send:c1:spy/", "step send:c2:a/", "step idle", "step idle",
+                                  "step send:c1:x1/"])
+        mk("snoop-links", ["mode net", "script u1 cmd:spy snoop:u2", "script u2 cmd:spy snoop:u3", "script u3 cmd:spy snoop:u1",
+                           "script u1 cmd:kick snoop:u3", "script u1 snoop w:saw", "script u2 snoop dest:me",
+                           "script u3 snoop cerr;dest:u1", "step conn:c1", "step conn:c2", "step conn:c3",
+                           "step send:c1:spy/ send:c2:spy/", "step send:c3:spy/a/", "step send:c2:b/ send:c3:c/",
+                           "step send:c1:kick/", "step send:c3:d/pa", "step send:c3:rt/ close:c1", "step send:c2:e/ send:c3:f/"])
+        # a snooper is REPLACED (two users snoop the same one), then the ends of the old and the new link go away in
+        # every order: the old snooper must not keep a link (remove_interactive() follows snoop_on / snoop_by)
+        for i, tail3 in enumerate([["step close:c3", "step close:c1", "step send:c2:a/"],
+                                   ["step close:c1", "step send:c3:a/b/", "step close:c2", "step send:c3:c/"],
+                                   ["step send:c1:quit/", "step send:c3:a/", "step close:c3 close:c2"],
+                                   ["step reset:c3 reset:c1 conn:c4", "step send:c4:a/ send:c2:b/"]]):
+            mk("snoop-replaced-snooper-%d" % i, ["mode net", "script u1 cmd:spy snoop:u3", "script u2 cmd:spy snoop:u3",
+                                                 "script u1 cmd:quit dest:me", "script u2 snoop w:saw", "script u1 snoop w:old",
+                                                 "step conn:c1", "step conn:c2", "step conn:c3", "step send:c1:spy/",
+                                                 "step send:c3:x1/", "step send:c2:spy/", "step send:c3:b/"] + tail3)
+        # a heart_beat removes objects that are still to come in the same round (the one right behind it, the last one,
+        # two at once): the round shrinks with them, nobody beats twice, no destructed object beats
+        mk("hb-removes-later-object", ["mode net"] + ["clone o%d /c09/obj" % i for i in range(1, 5)] + ["script o1 hb dest:o2"] +
+           ["vapply o%d do_ops hb:1" % i for i in range(1, 5)] + ["step tick", "step tick"])
+        mk("hb-removes-last-object", ["mode net"] + ["clone o%d /c09/obj" % i for i in range(1, 5)] +
+           ["script o2 hb dest:o4", "script o3 hb cerr"] + ["vapply o%d do_ops hb:1" % i for i in range(1, 5)] +
+           ["step tick", "step conn:c1 tick"])
+        mk("hb-removes-two-later-objects", ["mode net"] + ["clone o%d /c09/obj" % i for i in range(1, 6)] +
+           ["script o2 hb dest:o5;dest:o3", "script o4 hb err"] + ["vapply o%d do_ops hb:1" % i for i in range(1, 6)] +
+           ["step tick", "step tick"])
         mk("connect-rejected", ["mode net", "script k1 connect rej", "step conn:c1", "step conn:c2", "step send:c2:a/"])
         return B
 
     # ---- oracle self-test: traces the compiled judge must reject ------------------
+    def tie_diffs(self):
+        """precise report for a broken bridging lemma: which entry of which regenerated list differs from the list the
+        lemma in Bridge.lean expects (names the function / statement instead of a Lean line number)"""
+        out = []
+        try:
+            gen = open(os.path.join(E.VERIF, "lean/NV/Gen/C09.lean")).read()
+            br = open(os.path.join(E.VERIF, "lean/NV/C09/Bridge.lean")).read()
+        except OSError:
+            return out
+
+        def items(txt):
+            return re.findall(r'"((?:[^"\\\\]|\\\\.)*)"', txt)
+
+        def list_at(txt, pos):
+            """the bracketed list literal starting at the first `[` at or after pos (string aware)"""
+            i = txt.find("[", pos)
+            if i < 0:
+                return ""
+            k, instr = i, False
+            while k < len(txt):
+                ch = txt[k]
+                if instr:
+                    if ch == "\\":
+                        k += 1
+                    elif ch == '"':
+                        instr = False
+                elif ch == '"':
+                    instr = True
+                elif ch == "]":
+                    return txt[i:k + 1]
+                k += 1
+            return ""
+        for m in re.finditer(r"theorem (\w+) :\s*NV\.Gen\.C09\.(\w+) =", br):
+            thm, name = m.group(1), m.group(2)
+            g = re.search(r"def %s : List String :=" % name, gen)
+            if not g:
+                continue
+            want, have = items(list_at(br, m.end())), items(list_at(gen, g.end()))
+            if have != want:
+                gone = [x for x in want if x not in have]
+                new = [x for x in have if x not in want]
+                out.append("%s (Gen.%s): source no longer has %s; source now has %s%s" % (
+                    thm, name, gone or "-", new or "-", "" if gone or new else " (same entries, order changed)"))
+        m = re.search(r"def unprotectedElsewhere : List String :=", gen)
+        a = re.search(r"def unprotectedAllowed : List String :=", br)
+        if m and a:
+            extra = [x for x in items(list_at(gen, m.end())) if x not in items(list_at(br, a.end()))]
+            if extra:
+                out.append("no_new_unprotected_apply_site: NEW unprotected driver-initiated apply in %s" % extra)
+        return out
+
     def extra_checks(self, ctx, tier, rng):
+        pre_problems = [{"kind": "obligation-broken", "name": "tie detail: " + d.split(":")[0], "detail": d}
+                        for d in self.tie_diffs()]
         head = ["load reg /c09/reg", "mode net", "step conn:c1", "step send:c1:a/b/", "step idle", "run", "--"]
         tail = ["exit loop", 'hbs ""', "refs 0 0", "slots 1", "slotidx 1"]
         pre = ["start", "cycle 1", "t connect k1", "t logon u1", "cycle 2"]
@@ -512,12 +633,15 @@ class C09(Prop):
                                       "exit loop", 'hbs ""', "refs 1 0", "slots 1", "slotidx 1"],
             "user-disconnected-by-the-driver": pre + ["t input u1 a", "t cmd u1 a", "cycle 3", "t input u1 b", "t cmd u1 b",
                                                 "cycle 4", "t netdead u1", "exit loop", 'hbs ""', "refs 0 0", "slots 0", "slotidx"],
+            "line-waits-far-beyond-the-isolation-bound": [
+                "start", "cycle 1", "t connect k1", "t logon u1", "cycle 2", "t input u1 a", "t cmd u1 a"] +
+                ["cycle %d" % i for i in range(3, 10)] + ["t input u1 b", "t cmd u1 b"] + tail,
             "sanitizer-line": pre + ["sanitizer ERROR: AddressSanitizer: heap-use-after-free"] + tail,
         }
         good = pre + ["t input u1 a", "t cmd u1 a", "cycle 3", "t input u1 b", "t cmd u1 b"] + tail
         cases = [E.Case("neg-" + k, head + v) for k, v in bad.items()] + [E.Case("pos-good", head + good)]
         out = E.nvdrive(self.id, "judge", E.cases_text(cases))
-        problems = []
+        problems = pre_problems
         for k in bad:
             if out.get("neg-" + k, ["ok"]) == ["ok"]:
                 problems.append({"kind": "obligation-broken", "name": "oracle self-test: " + k,
@@ -532,7 +656,7 @@ class C09(Prop):
         ops = []
         for _ in range(rng.weighted([(1, 6), (2, 3), (3, 1)])):
             k = rng.weighted([("ok", 4), ("err", 5 if allow_err else 0), ("cerr", 2), ("dest", 3), ("co", 3), ("hb", 2),
-                              ("w", 2), ("meh", 1), ("it", 3 if allow_it else 0)])
+                              ("w", 2), ("meh", 1), ("it", 3 if allow_it else 0), ("snoop", 2 if me.startswith("u") else 0)])
             if k == "dest":
                 t = rng.weighted([("me", 3), ("u", 3), ("o", 2)])
                 if t == "u":
@@ -553,6 +677,8 @@ class C09(Prop):
                 ops.append("meh:" + rng.choice(["ok", "raise", "recurse"]))
             elif k == "it":
                 ops.append("it:" + rng.choice(["s", "t"]))
+            elif k == "snoop":
+                ops.append("snoop:u%d" % rng.range(1, max(1, nusers)))
             else:
                 ops.append(k)
             if k == "err":
@@ -583,7 +709,7 @@ class C09(Prop):
                         ops = ";".join("ok" if o in ("dest:me", "dest:o%d" % i) else o for o in ops.split(";"))
                     lines.append("script o%d %s %s" % (i, kind, ops))
         for u in range(1, nusers + 2):
-            for kind in ["logon", "input", "netdead", "hb", "co:p", "co:q", "it:s", "it:t", "prompt"] + ["cmd:" + v for v in verbs]:
+            for kind in ["logon", "input", "netdead", "hb", "co:p", "co:q", "it:s", "it:t", "prompt", "snoop"] + ["cmd:" + v for v in verbs]:
                 if rng.chance(density // 2 if kind in ("logon", "input", "prompt") else density, 100):
                     # input_to() acts on command_giver: that is the user itself in logon, process_input, a command and
                     # an input_to callback (not in net_dead / call_out / heart_beat, where it is inherited)
@@ -594,9 +720,16 @@ class C09(Prop):
             if rng.chance(6, 100):
                 refused.add(k)
                 lines.append("script k%d connect %s" % (k, rng.choice(["err", "rej"])))
+        # directed: a heart_beat that removes an object still to come in the same round
+        hb_forced = set()
+        if nobjs >= 2 and rng.chance(25, 100):
+            i = rng.range(1, nobjs - 1)
+            j = rng.range(i + 1, nobjs)
+            lines.append("script o%d hb %s" % (i, rng.choice(["dest:o%d", "ok;dest:o%d", "dest:o%d;err", "cerr;dest:o%d"]) % j))
+            hb_forced = {i, j}
         for i in range(1, nobjs + 1):
-            if rng.chance(75, 100):
-                s = ["hb:1"] if rng.chance(70, 100) else []
+            if rng.chance(75, 100) or i in hb_forced:
+                s = ["hb:1"] if (rng.chance(70, 100) or i in hb_forced) else []
                 for _ in range(rng.below(3)):
                     s.append("co:%d:%s" % (rng.range(1, 6), rng.choice(["p", "q", "r"])))
                 if s:
@@ -608,6 +741,8 @@ class C09(Prop):
         sent = {}
         quiet_next = False
         aba_done = False
+        backlog_done = False
+        snoop_done = False
         user_of = {}                      # client -> ordinal of its user object (the console user is attempt 1)
         attempt = [1 if console else 0, 0 if (not console or 1 in refused) else 1]
 
@@ -689,6 +824,48 @@ class C09(Prop):
             if rng.chance(35, 100) or not acts:
                 acts.append(rng.weighted([("tick", 12), ("tick:1", 3), ("tick:5", 2), ("tick:1000", 4)]))
             lines.append("step " + " ".join(acts))
+            # directed: snoop links set, replaced and torn down in random order
+            if len(open_c) >= 3 and not snoop_done and rng.chance(10, 100):
+                snoop_done = True
+                cs = [c for c in open_c if c in user_of]
+                if len(cs) >= 3:
+                    rng.shuffle(cs)
+                    a, b, t = cs[0], cs[1], cs[2]
+                    verb = rng.choice(verbs)
+                    lines.append("script u%d cmd:%s snoop:u%d" % (user_of[a], verb, user_of[t]))
+                    lines.append("script u%d cmd:%s snoop:u%d" % (user_of[b], verb, user_of[t]))
+                    lines.append("step send:c%d:%s/" % (a, verb))
+                    lines.append("step send:c%d:%s" % (t, self.gen_text(rng, verbs, partial_ok=False)))
+                    lines.append("step send:c%d:%s/" % (b, verb))
+                    lines.append("step send:c%d:%s" % (t, self.gen_text(rng, verbs, partial_ok=False)))
+                    for c in (a, b, t):
+                        sent[c] = sent.get(c, 0) + 3
+                    order = [a, b, t]
+                    rng.shuffle(order)
+                    for c in order[:rng.range(1, 3)]:
+                        open_c.remove(c)
+                        lines.append("step %s:c%d" % (rng.choice(["close", "reset"]), c))
+                        rest = [x for x in (a, b, t) if x in open_c]
+                        if rest and rng.chance(60, 100):
+                            lines.append("step send:c%d:%s" % (rng.choice(rest), self.gen_text(rng, verbs, partial_ok=False)))
+            # directed: a backlog of failing commands on one connection, commands pending on the others
+            if len(open_c) >= 2 and not backlog_done and rng.chance(10, 100):
+                backlog_done = True
+                a = rng.choice(open_c)
+                if a in user_of:
+                    verb = rng.choice(verbs)
+                    kind = rng.choice(["cmd:" + verb, "input", "cmd:" + verb])
+                    lines.append("script u%d %s %s" % (user_of[a], kind, rng.choice(["err", "cerr;err", "w:zz;err", "hb:1;err"])))
+                    n = rng.range(6, 12)
+                    acts2 = ["send:c%d:%s" % (a, (verb + "/") * n)]
+                    sent[a] = sent.get(a, 0) + n
+                    for c in open_c:
+                        if c != a and rng.chance(70, 100):
+                            t = self.gen_text(rng, verbs, partial_ok=False)
+                            sent[c] = sent.get(c, 0) + t.count("/")
+                            acts2.append("send:c%d:%s" % (c, t))
+                    rng.shuffle(acts2)
+                    lines.append("step " + " ".join(acts2))
             # directed: a third party frees a record whose own event is still waiting in the batch, with an accept in
             # between (the allocator hands the freed address to the new record): A's net_dead destructs B
             if len(open_c) >= 2 and not aba_done and not quiet_next and rng.chance(12, 100):
